@@ -343,7 +343,7 @@ class C08(Prop):
                    "the comment state ends exactly at the first */, never errors; token functions of the comment machinery emit no token and only push/pop the state")
 
     def links(self, ctx):
-        return _lex() + [link_evaluator] + _misc("link_sly_confinement", "link_pipeline")
+        return _lex() + _gram() + [link_evaluator] + _misc("link_sly_confinement", "link_pipeline")
 
     def canaries(self, ctx):
         from vcore.links_lex import table_canary, edit_pattern, edit_move_before
@@ -602,7 +602,7 @@ class C12(Prop):
     explanation = "deterministic_proba == HEXVAL(first 8 hex digits of MD5HEX(UTF8(key)))/2^32 (exact formula, codec, slice, divisor) + key template == salt first, sorted distinct splitters, str()"
 
     def links(self, ctx):
-        return [link_binning, link_evaluator] + _lex() + _gen() + _misc("link_pipeline", "link_sly_confinement")
+        return [link_binning, link_evaluator] + _lex() + _gram() + _gen() + _misc("link_pipeline", "link_sly_confinement")
 
     def canaries(self, ctx):
         tp = BIN + "deterministic_proba"
@@ -621,7 +621,7 @@ class C13(Prop):
     explanation = "raw-hole single-token obligations at every interpolation site; generated module == D(ast) with constants as the only literal-dependent parts; exec pipeline pinned"
 
     def links(self, ctx):
-        return _lex() + _gen() + [link_evaluator] + _misc("link_pipeline", "link_sly_confinement")
+        return _lex() + _gram() + _gen() + [link_evaluator] + _misc("link_pipeline", "link_sly_confinement")
 
     def canaries(self, ctx):
         return [gen_canary("salt-hand-quoted", "repr(self._experiment_ast.salt)", "f\"'{self._experiment_ast.salt}'\"", r"salt-raw-quoting|generate_key_definition/.*\["),
@@ -652,7 +652,7 @@ class C15(Prop):
     explanation = "deterministic_proba has no exceptional path for any str (UTF-8 is total on well-formed str); the key expression is str() of each splitter value; equal printed values give equal keys (congruence lemma)"
 
     def links(self, ctx):
-        return [link_binning] + _lex() + _gen() + _misc("link_pipeline", "link_sly_confinement")
+        return [link_binning, link_evaluator] + _lex() + _gram() + _gen() + _misc("link_pipeline", "link_sly_confinement")
 
     def canaries(self, ctx):
         tp = BIN + "deterministic_proba"
